@@ -457,7 +457,7 @@ class Engine:
         m = re.match(r"const <D as (?:distance::)?Distance>::DEFAULT_OVERSAMPLING$", tok)
         if m:
             return z3.BitVec("DEFAULT_OVERSAMPLING", 64)
-        pm = re.match(r"const (.*)::(\w+)::promoted\[(\d+)\]$", tok)
+        pm = re.match(r"const (.*)::(\w+)(?:::<[^>]*>)?::promoted\[(\d+)\]$", tok)
         if pm:
             mod = pm.group(1).split("::")[0]
             suffix = f"::{pm.group(2)}::promoted[{pm.group(3)}]"
